@@ -53,7 +53,15 @@ class Condition {
 
         wait_token_ = sch_.getToken();
         sch_.wait();
-        conds_.clear();
+
+        //! post() has consumed the conditions and released wait_token_ before resuming us, and
+        //! another routine may have add()ed its own and be waiting by now: leave those alone.
+        //! Only a wait that was interrupted (cancel() / resume() by hand) still owns the
+        //! registration; it gives it up.
+        if (wait_token_.equal(sch_.getToken())) {
+            conds_.clear();
+            wait_token_.reset();
+        }
 
         return !sch_.isCanceled();
     }
